@@ -1930,7 +1930,7 @@ def codec_specs(read_src, status):
 CONV_OUTSIDE = [
     ("conv_bfe_from_str", BFE_REL, "from_str", r"impl FromStr for BFieldElement", "BFieldElement", "bfe"),
     ("conv_digest_from_str", DIG_REL, "from_str", r"impl FromStr for Digest", "Digest", ("struct", "Digest")),
-    ("conv_digest_try_from_hex", DIG_REL, "try_from_hex", r"impl Digest \{\s*///? Hash", "Digest", ("struct", "Digest")),
+    ("conv_digest_try_from_hex", DIG_REL, "try_from_hex", None, "Digest", ("struct", "Digest")),
     ("conv_digest_to_hex", DIG_REL, "to_hex", None, "Digest", ("struct", "Digest")),
     ("conv_digest_try_from_bfe_slice", DIG_REL, "try_from", r"impl TryFrom<&\[BFieldElement\]> for Digest", "Digest",
      ("struct", "Digest")),
